@@ -3,7 +3,7 @@
 From Coq Require Import String Lia.
 From RM Require Import C06.Model C06.Proofs C06.Proofs5 C06.Driver C07.Model C07.Proofs C07.Proofs2 C07.Proofs3 C07.Proofs4 C07.Text C07.Proofs5 C07.Walker C07.Proofs6 C07.Proofs7 C07.Proofs11 C07.Proofs13 C07.Proofs8 C07.Proofs9 C07.Proofs10 C07.Proofs12 Gen.C07WinEval C07.Source C07.Proofs14 C07.Proofs15 C07.Proofs16 Gen.C07WinLine C07.Proofs17 C07.Proofs18 C07.WalkerFd C07.Proofs19 C07.Proofs20 C07.Driver C07.Proofs21 C07.Proofs22 C07.Proofs23.
 From RM Require C09.Grammar.
-From RM Require C08.Model C08.Proofs C08.WinModel C08.WinProofs.
+From RM Require C08.Model C08.Proofs C08.WinModel C08.WinProofs C08.Tie.
 Open Scope Z_scope.
 
 (* No Panic and no OutOfFuel in STACK WIN evaluation: every size field, every program text
@@ -971,3 +971,15 @@ Proof.
   split; [vm_compute; reflexivity|].
   intros t H. vm_compute in H. inversion H; subst t. vm_compute. repeat split; reflexivity.
 Qed.
+
+(* the table and the SOURCE: insert_win_stack_info, the parser-local into_rangemap_safe and StackInfoWin::memory_range as
+   regenerated from parser.rs / types.rs by C08's translator (Gen/C08Tables.v; C08/Tie.v g_win_table) build, on the image
+   of the records under Proofs23.g (address, size, index of the first record of the file with the same other fields),
+   exactly the image of this directory's table — both build profiles — and lookups commute.  An edit of the overlap
+   repair (comparison, subtraction, cast) changes the generated function and this stops proving (through C08/Tie.v). *)
+Theorem c07_table_is_source_table :
+  forall p l t, Forall win_wf l -> win_table l = Ret t ->
+    C08.Tie.g_win_table p (map (Proofs23.g l) l) = Ret (mapv (Proofs23.g l) t) /\
+    forall x, C08.Model.rm_get (mapv (Proofs23.g l) t) x = option_map (Proofs23.g l) (C08.Model.rm_get t x).
+Proof. exact table_is_source_table. Qed.
+Print Assumptions c07_table_is_source_table.
